@@ -49,7 +49,8 @@ Record scfg := SC {
 
 Definition stripe_bounds (c : scfg) : list (Z * Z) :=
   stripe_bounds_from (sc_k c) (sc_s c) (sc_e c) (Z.of_nat (sc_P c)) (sc_g c) (sc_P c) 0 (sc_s c).
-Definition sb (c : scfg) (j : nat) : Z * Z := nth j (stripe_bounds c) (0, 0).
+(* stripe j's [begin, end); indices beyond the last stripe never occur (the default is an empty stripe at the end) *)
+Definition sb (c : scfg) (j : nat) : Z * Z := nth j (stripe_bounds c) (sc_e c, sc_e c).
 
 (* state.chunkSize = static_cast<IntegerT>(adaptiveChunkSize) (parallel_for.h:498): narrowed to the index type;
    stripeClaim widens it again (value preserving) *)
